@@ -525,6 +525,7 @@ type client struct {
 
 	quitOnce sync.Once
 	quit     chan struct{}
+	stopped  chan struct{} // closed when both loops have exited, before the final drain
 	done     chan struct{}
 }
 
@@ -549,6 +550,7 @@ func newClient(conn net.Conn, cfg *config, logger log.Logger, options ...clientO
 		pendingReqs:    make(chan *simpleRequest, 1024),
 		processingReqs: make(chan *simpleRequest, 1024),
 		quit:           make(chan struct{}),
+		stopped:        make(chan struct{}),
 		done:           make(chan struct{}),
 	}
 
@@ -600,6 +602,7 @@ func (c *client) Start() {
 	verifhook.At("client.Start.quitClosed", c)
 	<-writeDone
 	verifhook.At("client.Start.writeDone", c)
+	close(c.stopped)
 	c.drainRequests()
 	verifhook.At("client.Start.drained", c)
 	close(c.done)
@@ -611,10 +614,27 @@ func (c *client) Send(req *simpleRequest) {
 	case <-c.quit:
 		verifhook.At2("client.Send.quit", c, req)
 		req.SetResponse(newError(backendExited))
+		return
 	default:
-		verifhook.At2("client.Send.checked", c, req)
-		c.pendingReqs <- req
-		verifhook.At2("client.Send.enqueued", c, req)
+	}
+
+	verifhook.At2("client.Send.checked", c, req)
+	select {
+	case <-c.quit:
+		// never block on the queue of a client which is exiting.
+		verifhook.At2("client.Send.quit", c, req)
+		req.SetResponse(newError(backendExited))
+		return
+	case c.pendingReqs <- req:
+	}
+	verifhook.At2("client.Send.enqueued", c, req)
+
+	// The client may have exited between the check and the enqueue, in that
+	// case nobody will look at the queue anymore, drain it again.
+	select {
+	case <-c.stopped:
+		c.drainRequests()
+	default:
 	}
 }
 
@@ -655,6 +675,8 @@ func (c *client) loopWrite() {
 		select {
 		case <-c.quit:
 			verifhook.At2("client.loopWrite.handoffQuit", c, req)
+			// the request in hand is in neither queue, answer it here.
+			req.SetResponse(newError(backendExited))
 			return
 		case c.processingReqs <- req:
 		}
@@ -681,7 +703,13 @@ func (c *client) loopRead() {
 		}
 
 		verifhook.At("client.loopRead.decoded", c)
-		req := <-c.processingReqs
+		var req *simpleRequest
+		select {
+		case req = <-c.processingReqs:
+		case <-c.quit:
+			// the writer may have exited before handing the request over.
+			return
+		}
 		verifhook.At2("client.loopRead.paired", c, req)
 		c.handleResp(req, resp)
 		verifhook.At2("client.loopRead.handled", c, req)
